@@ -323,7 +323,32 @@ class C07(Prop):
             canon=[['e', '$lp2\t', '$lp2'], ['e', '$lp2', '$lp2'], ['w', 'ADD($v9, 1)', None],
                    ['r', 'ADD(10,$)', 'ADD(10, $)'], ['r', 'ADD(10, $)', 'ADD(10, $)']],
             xf=[['ADD(10, $)', 'add', 10]])
-        return [c1, c2, c3, c4, c5, c6, c7, c8, c9, c10, c11, c12]
+        # hub-side attributes of the ports of a permanently offline slave (tag, expires, an expression on the writable
+        # port; the read-only port refuses one) across two restarts, the port being persisted again in between
+        rem2 = {'10.1.0.1': self._remote('garden')}
+        ex = ('AND($lp2,  LT($garden.temp,35))', 'AND($lp2, LT($garden.temp, 35))')
+        c13 = dict(base, name='hub-side expression / tag / expires of the ports of an offline slave', remotes=rem2, phases=[
+            [['sadd', {'scheme': 'http', 'host': '10.1.0.1', 'port': 80, 'path': '/', 'admin_password': 'x',
+                       'poll_interval': 0, 'listen_enabled': False}],
+             ['patch', 'garden.sw', {'tag': 'zone "A" ☀', 'expires': 3600}],
+             ['patch', 'garden.sw', {'expression': ex[0]}],
+             ['patch', 'garden.temp', {'tag': 'ro', 'expires': 7200}],
+             ['patch', 'garden.temp', {'expression': '$lp2'}]],
+            [['patch', 'garden.sw', {'expires': 1800}]],
+            []],
+            canon=[['e', ex[0], ex[1]], ['e', ex[1], ex[1]], ['e', '$lp2', '$lp2']])
+        # PATCH /device, then PUT /device (GET /device fed back: reset + restore) in the same run, further edits, restart;
+        # the second run does a PUT as its first device write and drops the display name from the document
+        c14 = dict(base, name='PUT /device after a device save, further edits, restart', phases=[
+            [['dev', {'name': 'hub1', 'display_name': 'Hub "one" ☀ \\ é', 'admin_password': 's3cret', 'normal_password': 'user'}]],
+            [['dev', {'viewonly_password': 'guest'}],
+             ['devput', {'set': {'admin_password': 'ignored', 'nosuchattr': 1}, 'drop': ['definitions']}],
+             ['dev', {'display_name': 'Hub 1 (cellar)', 'normal_password': 'user2'}]],
+            [['devput', {'set': {'name': 'restored'}, 'drop': ['display_name']}],
+             ['devput', {'set': {'name': 'bad name!'}, 'refused': True}]],
+            []])
+        c15 = dict(c14, name='PUT /device after a device save, further edits, restart (redis)', driver='redis')
+        return [c1, c2, c3, c4, c5, c6, c7, c8, c9, c10, c11, c12, c13, c14, c15]
 
     @staticmethod
     def _slave_doc(name, k, attrs):
@@ -461,7 +486,9 @@ class C07(Prop):
                         d['name'] = rng.choice(['hub1', 'my-hub_2', 'X'])
                     if rng.random() < 0.5:
                         d[rng.choice(['admin', 'normal', 'viewonly']) + '_password'] = rng.choice(['', 'pw', 'sécret"\\'[:32]])
-                    if d:
+                    if rng.random() < 0.3:
+                        ops.append(['devput', self._gen_devput(rng, s)])
+                    elif d:
                         ops.append(['dev', d])
                 elif r < 0.93:
                     k = rng.choice([0, 1, 2, 2])
@@ -483,12 +510,59 @@ class C07(Prop):
                     ops.append(['sdel', nm])
                     slaves.discard(nm)
             if ph < nphases - 1:
+                if rng.random() < 0.25:
+                    ops.extend(self._device_block(rng, s))
                 ops.extend(self._tail(rng, s, live, defs, slaves, VIDS))
             phases.append(ops)
         case = {'driver': driver, 'canon': canon, 'xf': xf, 'phases': phases}
-        if remotes and rng.random() < 0.15:
+        if remotes and rng.random() < 0.25:
             self._add_remote_slaves(rng, case)
         return case
+
+    @staticmethod
+    def _gen_devput(rng, s):
+        """modifications applied to GET /device before it is given back through PUT /device"""
+        if rng.random() < 0.06:
+            return {'set': {'name': 'bad name!'}, 'refused': True}      # fails the schema: refused, nothing touched
+        st, drop = {}, []
+        if rng.random() < 0.35:
+            st['display_name'] = s()[:64]
+        if rng.random() < 0.25:
+            st['name'] = rng.choice(['hub1', 'my-hub_2', 'X', 'restored'])
+        if rng.random() < 0.3:
+            # password fields of the document are ignored by PUT /device
+            st[rng.choice(['admin', 'normal', 'viewonly']) + '_password'] = rng.choice(['', 'pw', 'other'])
+        if rng.random() < 0.15:
+            st['nosuchattr'] = 1
+        if rng.random() < 0.5:
+            drop.append('definitions')
+        if rng.random() < 0.12:
+            drop.append(rng.choice(['name', 'display_name']))        # left out of the document: back to the default
+        return {'set': st, 'drop': drop}
+
+    def _device_block(self, rng, s):
+        """a device save, THEN PUT /device (reset + restore) in the same run of the hub, then 0-2 further PATCH /device
+        (name, display name, passwords) - a restart follows"""
+        def patch():
+            d = {}
+            while not d:
+                if rng.random() < 0.5:
+                    d['display_name'] = s()[:64]
+                if rng.random() < 0.4:
+                    d['name'] = rng.choice(['hub1', 'my-hub_2', 'X'])
+                if rng.random() < 0.6:
+                    d[rng.choice(['admin', 'normal', 'viewonly']) + '_password'] = rng.choice(['', 'pw', 'sécret"\\'[:32], 'g'])
+            return ['dev', d]
+        ops = [patch()]
+        if rng.random() < 0.3:
+            ops.append(['sleep', 3000])
+        mods = self._gen_devput(rng, s)
+        if mods.get('refused'):
+            mods = {'set': {}, 'drop': ['definitions']}
+        ops.append(['devput', mods])
+        for _ in range(rng.choice([0, 1, 1, 2])):
+            ops.append(patch())
+        return ops
 
     @staticmethod
     def _remote(name):
@@ -510,13 +584,40 @@ class C07(Prop):
         case['phases'] = [[op for op in ops if op[0] != 'sput'] for ops in case['phases']]
         pre = [['sadd', {'scheme': 'http', 'host': h, 'port': 80, 'path': '/', 'admin_password': 'x', 'poll_interval': 0,
                          'listen_enabled': False}] for h in case['remotes']]
+        later = []
         for n in names:
-            for pid in ('temp', 'sw'):
+            for pid, writable in (('temp', False), ('sw', True)):
+                # the attributes the hub keeps itself for a slave port (slaves/ports.py MASTER_ATTRS), each PATCH on its
+                # own: tag, expires, a hub-side expression (accepted on the writable port, refused on the read-only one),
+                # history settings (refused where the store has no samples support)
+                a = {}
                 if rng.random() < 0.6:
-                    pre.append(['patch', f'{n}.{pid}', {'tag': rng.choice(['t', 'sec "1"', 'x' * 20])}])
+                    a['tag'] = rng.choice(['t', 'sec "1"', 'x' * 20, 'üñí ✓'])
+                if rng.random() < 0.4:
+                    a['expires'] = rng.choice([0, 600, 3600, 86400])
+                if a:
+                    pre.append(['patch', f'{n}.{pid}', a])
+                if rng.random() < (0.6 if writable else 0.3):
+                    raw, c = rng.choice([(f'GT( ${n}.temp ,  20)', f'GT(${n}.temp, 20)'),
+                                         (f'LT(${n}.temp,20)', f'LT(${n}.temp, 20)'),
+                                         ('NOT( $lp2 )', 'NOT($lp2)'),
+                                         (f'AND($lp2,  GT(${n}.temp,5))', f'AND($lp2, GT(${n}.temp, 5))'),
+                                         ('$nosuch', '$nosuch')])
+                    case['canon'] += [['e', raw, c], ['e', c, c]]
+                    pre.append(['patch', f'{n}.{pid}', {'expression': raw}])
+                    if writable and rng.random() < 0.15:
+                        pre.append(['patch', f'{n}.{pid}', {'expression': ''}])
+                if rng.random() < 0.2:
+                    pre.append(['patch', f'{n}.{pid}', {'history_interval': rng.choice([-1, 0, 60]),
+                                                        'history_retention': rng.choice([0, 3600])}])
+                if rng.random() < 0.3:
+                    # edited once more in the next run of the hub (the port is persisted again), then restarted again
+                    later.append(['patch', f'{n}.{pid}', rng.choice([{'expires': 1800}, {'tag': 'again'}])])
         victim = rng.choice([short, short, short, long_, 'attic'])
         k = rng.randrange(len(case['phases']) - 1)
         case['phases'][0] = pre + case['phases'][0]
+        if len(case['phases']) > 2:
+            case['phases'][1] = later + case['phases'][1]
         # the ports of a slave are saved once more by the save loop after every boot (their first value arrives): the
         # removal mostly comes after that
         case['phases'][k] = case['phases'][k] + ([['sleep', 5000]] if rng.random() < 0.85 else []) + [['sdel', victim]]
@@ -596,7 +697,7 @@ class C07(Prop):
 
     # ------------------------------------------------------------------------------------------ real side
     def _boot(self, wd, persist, ops, k, remotes=None):
-        spec = {'persist': persist, 'static_ports': STATIC, 'slaves': True, 'ops': ops}
+        spec = {'persist': persist, 'static_ports': STATIC, 'slaves': True, 'ops': ops, 'passwords': self.passwords}
         if remotes:
             # the simulated devices answer only in a boot that adds one; afterwards they are unreachable
             spec['remotes'] = remotes
@@ -623,6 +724,8 @@ class C07(Prop):
             for attr, kind in (('expression', 'e'), ('transform_read', 'r'), ('transform_write', 'w')):
                 if isinstance(q.get(attr), str):
                     q[attr] = self.canon_map.get((kind, q[attr])) or q[attr]
+            if isinstance(q.get('provisioning'), list):
+                q['provisioning'] = sorted(q['provisioning'])
             # the value is compared only where the property speaks: persisted ports without an expression
             if p.get('persisted') and not p.get('expression'):
                 q['value'] = vals.get(p['id'])
@@ -699,6 +802,25 @@ class C07(Prop):
         if k == 'sfwd':
             return f'sfwd {hx(op[1])} ' + ' '.join(f'{n}={enc(v)}' for n, v in op[2].items())
         return None
+
+    @staticmethod
+    def _model_devput(op, driver):
+        """PUT /device with GET /device fed back: the name / display name of the document are those of the CURRENT state
+        (asked from the model, not from the hub) unless the case sets or drops them; everything else in the document
+        (passwords included) is ignored by the hub"""
+        mods = op[1] or {}
+        if mods.get('refused'):
+            return None
+        rep = driver.ask('device')
+        kv = dict(t.split('=', 1) for t in rep.split(' ')[1:])
+
+        def f(key, cur):
+            if key in mods.get('set', {}):
+                return 's:' + hx(mods['set'][key])
+            if key in mods.get('drop', []):
+                return '-'
+            return 's:' + cur
+        return f'devput {f("name", kv["name"])} {f("display_name", kv["display"])}'
 
     @staticmethod
     def _resp_class(real, model):
@@ -858,6 +980,15 @@ class C07(Prop):
         else:
             persist = {'driver': 'json', 'file_path': os.path.join(wd, 'store.json')}
         tags.add('driver:' + case['driver'])
+        # candidate passwords for the credentials probe: every password of the case, the empty one, a wrong one
+        pws = {'', 'wrong-one'}
+        for ops in case['phases']:
+            for op in ops:
+                if op[0] == 'dev':
+                    pws |= {v for n, v in op[1].items() if n.endswith('_password')}
+                elif op[0] == 'devput':
+                    pws |= {v for n, v in (op[1] or {}).get('set', {}).items() if n.endswith('_password') and isinstance(v, str)}
+        self.passwords = sorted(pws)
         outs = []
         for k, ops in enumerate(case['phases']):
             try:
@@ -918,7 +1049,13 @@ class C07(Prop):
                                    f'has {av!r} after it (neither the old value nor read(write(v)) = {exp!r})',
                                    real={'before': p, 'after': after['ports'][pid]})
             if fail is None and outs[k - 1]['final_hashes'] != outs[k]['boot_hashes']:
-                fail = Failure('property', f'restart #{k}: password hashes differ after the restart')
+                fail = Failure('property', f'restart #{k}: password hashes differ after the restart',
+                               real={'before': {'device': before['device'], 'hashes': outs[k - 1]['final_hashes']},
+                                     'after': {'device': after['device'], 'hashes': outs[k]['boot_hashes']}})
+            if fail is None and outs[k - 1]['final_creds'] != outs[k]['boot_creds']:
+                fail = Failure('property', f'restart #{k}: the hub accepts other credentials after the restart than before '
+                               f'it (candidate passwords {self.passwords!r})',
+                               real={'before': outs[k - 1]['final_creds'], 'after': outs[k]['boot_creds']})
             # deleted things must be absent
             gone = set()
             for op, res in zip(case['phases'][k - 1], outs[k - 1]['op_results']):
@@ -966,6 +1103,30 @@ class C07(Prop):
                 tags.add('slave-pending-edit')
             if outs[k - 1]['final'].get('devices'):
                 tags.add('slaves')
+            for p in outs[k - 1]['final']['ports']:
+                if 'provisioning' in p:           # port of a slave device
+                    rw = 'rw' if p.get('writable') else 'ro'
+                    if p.get('expression'):
+                        tags.add(f'slave-port-{rw}-expression-restart')
+                    if p.get('tag') or p.get('expires'):
+                        tags.add(f'slave-port-{rw}-tag/expires-restart')
+
+        # credentials acceptance is what the hashes say (within one boot), and a set password is never the empty one
+        for k, out in enumerate(outs):
+            for which in ('boot', 'final'):
+                for usr, acc in out[which + '_creds'].items():
+                    exp = [hashlib.sha256(pw.encode()).hexdigest() == out[which + '_hashes'][usr] for pw in self.passwords]
+                    if fail is None and acc != exp:
+                        fail = Failure('property', f'boot #{k} ({which}): user {usr}: accepted candidate passwords {acc} do '
+                                       f'not match the stored hash ({exp}) for {self.passwords!r}')
+        if any(op[0] == 'devput' for ops in case['phases'][:-1] for op in ops):
+            tags.add('put-device-then-restart')
+        for k in range(len(case['phases']) - 1):
+            kinds = [op[0] for op, res in zip(case['phases'][k], outs[k]['op_results']) if res == 'ok' and op[0] in ('dev', 'devput')]
+            if 'devput' in kinds and 'dev' in kinds[:kinds.index('devput')]:
+                tags.add('device-saved-then-put-then-restart')
+                if 'dev' in kinds[kinds.index('devput'):]:
+                    tags.add('device-saved-put-edited-restart')
 
         # ---------------- model
         remote_names = [r['device']['name'] for r in (case.get('remotes') or {}).values()]
@@ -1014,6 +1175,14 @@ class C07(Prop):
             prevv = dict(out['boot_vals'])
             for op, res, vals in zip(case['phases'][k], out['op_results'], out['op_vals']):
                 line = self._model_op(op)
+                if op[0] == 'devput':
+                    line = self._model_devput(op, driver)
+                    if line is None:
+                        # a document that fails the schema: refused before anything is touched (no model step)
+                        tags.add('devput-refused')
+                        if mfail is None and not res.startswith('err:400:'):
+                            mfail = Failure('correspondence', f'boot #{k} op {op}: hub answered {res}, a 400 was expected',
+                                            real=res, model='refused')
                 if op[0] in ('sdel', 'patch', 'val') and any(op[1] == n or op[1].startswith(n + '.') for n in remote_names):
                     line = None               # remote slave devices and their ports are outside the model
                 tags.add('op:' + op[0])
